@@ -421,6 +421,15 @@ func (eng *Engine) genOverlay(p *packages.Package, cf *ContractFile, fset *token
 				pos := loopBodyPos(loops[k-1])
 				var kept []Clause
 				for i := range ls.Invariants {
+					if cl := &ls.Invariants[i]; cl.SinceCallee != "" {
+						sc := collectCalls(fi.decl, cl.SinceCallee)
+						if cl.SinceOrdinal < 1 || cl.SinceOrdinal > len(sc) {
+							g.eng.drift = append(g.eng.drift, fmt.Sprintf("%s:%d: %s has %d calls of %s, invariant names call %d (invariant %s dropped)", cf.Path, cl.Line, fs.Name, len(sc), cl.SinceCallee, cl.SinceOrdinal, cl.Label))
+							continue
+						}
+						sp := fset.Position(sc[cl.SinceOrdinal-1].Lparen)
+						cl.SinceFile, cl.SinceOff = sp.Filename, sp.Offset
+					}
 					if err := emit(&ls.Invariants[i], fmt.Sprintf("inv%d", k), false, pos); err != nil {
 						g.eng.drift = append(g.eng.drift, fmt.Sprintf("%v (invariant %s of loop %d dropped)", err, ls.Invariants[i].Label, k))
 						continue
@@ -745,13 +754,17 @@ func (g *overlayGen) paramsFromNode(fi *funcInfo, node ast.Node, withResults boo
 		if inner == nil {
 			inner = sc
 		}
-		_, obj := inner.LookupParent(name, pos)
+		look, snap := name, false
+		if strings.HasPrefix(name, "before_") {
+			look, snap = strings.TrimPrefix(name, "before_"), true
+		}
+		_, obj := inner.LookupParent(look, pos)
 		v, ok := obj.(*types.Var)
 		if !ok || v.Parent() == g.p.Types.Scope() {
-			return nil, "", fmt.Errorf("identifier %q not found at the clause position", name)
+			return nil, "", fmt.Errorf("identifier %q not found at the clause position", look)
 		}
 		pp := g.fset.Position(v.Pos())
-		params = append(params, ClauseParam{Kind: pkLocal, Name: name, Pos: v.Pos(), File: pp.Filename, Off: pp.Offset})
+		params = append(params, ClauseParam{Kind: pkLocal, Name: name, Pos: v.Pos(), File: pp.Filename, Off: pp.Offset, Snap: snap})
 		decl = append(decl, name+" "+types.TypeString(v.Type(), g.qual))
 	}
 	return params, strings.Join(decl, ", "), nil
@@ -1195,6 +1208,14 @@ func (eng *Engine) escapeInfo(fn *ssa.Function) map[*ssa.Alloc]bool {
 			if a, ok := ins.(*ssa.Alloc); ok {
 				if eng.valueEscapes(a, map[ssa.Value]bool{}, 0) {
 					m[a] = true
+					if os.Getenv("SHVC_DEBUG_ESC") != "" {
+						fmt.Fprintf(os.Stderr, "escapes: %s in %s (%s)\n", a.Comment, fn.Name(), a.Name())
+						if refs := a.Referrers(); refs != nil {
+							for _, r := range *refs {
+								fmt.Fprintf(os.Stderr, "    ref: %T %s\n", r, r)
+							}
+						}
+					}
 				}
 			}
 		}
@@ -1678,13 +1699,19 @@ func (eng *Engine) loopMods(fn *ssa.Function, li *loopInfo, esc map[*ssa.Alloc]b
 								ms.cells[a] = true
 							}
 						case *ssa.Call, *ssa.Defer:
-							ms.cells[a] = true
+							// the callee (inlined: the address does not outlive the call) can write through it only
+							// while it runs: that matters when the call is inside this loop
+							if li.body[r.Block()] {
+								ms.cells[a] = true
+							}
 						case *ssa.FieldAddr, *ssa.IndexAddr:
 							if rr := r.(ssa.Value).Referrers(); rr != nil {
 								for _, r2 := range *rr {
 									switch r2.(type) {
 									case *ssa.Call, *ssa.Defer:
-										ms.cells[a] = true
+										if li.body[r2.Block()] {
+											ms.cells[a] = true
+										}
 									}
 								}
 							}
